@@ -3,8 +3,10 @@ package main
 import (
 	"bytes"
 	"fmt"
+	"sync"
 	"net/netip"
 	"reflect"
+	"runtime"
 	"strconv"
 	"strings"
 	"time"
@@ -23,6 +25,8 @@ func init() {
 	ops["pipe"] = opPipe
 	ops["pkt"] = opPkt
 	ops["poison"] = opPoison
+	ops["stage"] = opStage
+	ops["par"] = opPar
 }
 
 // persistent across `reset`: compiled configurations
@@ -102,15 +106,27 @@ func dumpMsg(m *protoproducer.ProtoProducerMessage) string {
 // moment the pipe hands it to the formatter
 type captureFormat struct {
 	lines []string
+	// parallel mode: lines are attributed to the calling goroutine
+	mu     sync.Mutex
+	byGoid map[int][]string
 }
 
 func (c *captureFormat) Format(data interface{}) ([]byte, []byte, error) {
+	var line string
 	m, ok := data.(*protoproducer.ProtoProducerMessage)
 	if !ok {
-		c.lines = append(c.lines, fmt.Sprintf("msg <not a ProtoProducerMessage: %T>", data))
-		return nil, nil, nil
+		line = fmt.Sprintf("msg <not a ProtoProducerMessage: %T>", data)
+	} else {
+		line = dumpMsg(m)
 	}
-	c.lines = append(c.lines, dumpMsg(m))
+	c.mu.Lock()
+	if c.byGoid != nil {
+		g := goid()
+		c.byGoid[g] = append(c.byGoid[g], line)
+	} else {
+		c.lines = append(c.lines, line)
+	}
+	c.mu.Unlock()
 	return nil, nil, nil
 }
 
@@ -247,5 +263,108 @@ func opPkt(st *state, args []string) []string {
 		}
 		lines = append([]string{res}, pe.cap.lines...)
 	}()
+	return lines
+}
+
+type staged struct {
+	pipe string
+	msg  *utils.Message
+}
+
+// stage <pid> <ip> <port> <recv-ns> <hex>: remember a datagram for the next `par`
+func opStage(st *state, args []string) []string {
+	if len(args) != 5 {
+		return []string{"bad-op"}
+	}
+	ipb, ok1 := unhex(args[1])
+	port, err1 := strconv.ParseUint(args[2], 10, 16)
+	ns, err2 := strconv.ParseInt(args[3], 10, 64)
+	d, ok2 := unhex(args[4])
+	addr, ok3 := addrOf(ipb)
+	if !ok1 || !ok2 || !ok3 || err1 != nil || err2 != nil {
+		return []string{"bad-op"}
+	}
+	l, _ := st.extra["staged"].([]staged)
+	l = append(l, staged{args[0], &utils.Message{Src: netip.AddrPortFrom(addr, uint16(port)),
+		Dst: netip.AddrPortFrom(netip.MustParseAddr("127.0.0.1"), 2055), Payload: d, Received: time.Unix(0, ns)}})
+	st.extra["staged"] = l
+	return []string{"res ok"}
+}
+
+// par <goroutines>: process every staged datagram concurrently on its (shared) pipe from the given
+// number of goroutines with random yields; print the outcome of each datagram in staging order
+func opPar(st *state, args []string) []string {
+	if len(args) != 1 {
+		return []string{"bad-op"}
+	}
+	g, err := strconv.Atoi(args[0])
+	l, _ := st.extra["staged"].([]staged)
+	st.extra["staged"] = nil
+	if err != nil || g < 1 {
+		return []string{"bad-op"}
+	}
+	type out struct {
+		res   string
+		lines []string
+	}
+	outs := make([]out, len(l))
+	caps := map[*captureFormat]bool{}
+	for _, s := range l {
+		pe, ok := st.extra["pipe:"+s.pipe].(*pipeEntry)
+		if !ok {
+			return []string{"bad-op"}
+		}
+		caps[pe.cap] = true
+	}
+	for c := range caps {
+		c.mu.Lock()
+		c.byGoid = map[int][]string{}
+		c.mu.Unlock()
+	}
+	var wg sync.WaitGroup
+	next := make(chan int, len(l))
+	for i := range l {
+		next <- i
+	}
+	close(next)
+	for w := 0; w < g; w++ {
+		wg.Add(1)
+		go func(w int) {
+			defer wg.Done()
+			me := goid()
+			for i := range next {
+				pe := st.extra["pipe:"+l[i].pipe].(*pipeEntry)
+				if (i+w)%3 == 0 {
+					runtime.Gosched()
+				}
+				pe.cap.mu.Lock()
+				pe.cap.byGoid[me] = nil
+				pe.cap.mu.Unlock()
+				func() {
+					defer func() {
+						if r := recover(); r != nil {
+							outs[i].res = "panic"
+						}
+					}()
+					e := pe.pipe.DecodeFlow(l[i].msg)
+					outs[i].res = strings.TrimPrefix(classify(e), "res ")
+				}()
+				pe.cap.mu.Lock()
+				outs[i].lines = append([]string{}, pe.cap.byGoid[me]...)
+				pe.cap.mu.Unlock()
+			}
+		}(w)
+	}
+	wg.Wait()
+	for c := range caps {
+		c.mu.Lock()
+		c.byGoid = nil
+		c.mu.Unlock()
+	}
+	lines := []string{fmt.Sprintf("res ok n=%d", len(l))}
+	for i, o := range outs {
+		lines = append(lines, fmt.Sprintf("d %d %s n=%d", i, o.res, len(o.lines)))
+		lines = append(lines, o.lines...)
+	}
 	return lines
 }
